@@ -132,4 +132,21 @@ theorem create_numpyText_refused (shape : Option (List Int)) (data : Option Arr)
       · simp [Except.bind] at h
       · simp [Except.bind, createFrom] at h
 
+/-- what h5py is asked for when the dtype argument is what another array reports as its element type
+(`data_type`, `dtype`): that array's element type -/
+theorem reported_arg (t : DType) :
+    h5pyDtype dataTypeMembers (h5InitDtype (dsDataType (storedDtype t))) = some (.nix t) ∧
+    h5pyDtype dataTypeMembers (h5InitDtype (daDtype (storedDtype t))) = some (.nix t) := by
+  cases t <;> exact ⟨by decide, by decide⟩
+
+theorem createWith_reported (t : DType) (shape : Option (List Nat)) (data : Option Arr) (compr : Bool) :
+    createWith (dsDataType (storedDtype t)) shape data compr = some (createS (some t) shape data compr) ∧
+    createWith (daDtype (storedDtype t)) shape data compr = some (createS (some t) shape data compr) := by
+  obtain ⟨h1, h2⟩ := reported_arg t
+  constructor
+  · simp only [createWith, h1, Option.map_some]
+    exact congrArg some (createRules_eq (some t) shape data compr)
+  · simp only [createWith, h2, Option.map_some]
+    exact congrArg some (createRules_eq (some t) shape data compr)
+
 end Nix.Nd.Lemmas
